@@ -1,21 +1,26 @@
 /-
-  C05 tie: facts regenerated from /repo's Go source on every run, compared with what the proofs assume.
+  C05 tie: facts regenerated from /repo's Go source on every run, compared with what the model transcribes.
+  Every expectation is EXACTLY the current (repaired) code; a revert of any C05 fix, a dropped canonicaliser or a
+  changed guard breaks one of these theorems (and the correspondence then supplies the concrete input).
 
   * `numSites_ok`  : every place where a `valueFloat` is built WITHOUT a canonicaliser is one of the audited sites
-                     below (constants whose value is non-integral / ±Inf / -0 / the canonical NaN / > 2^53; the tails
-                     of `floatToValue` and `intToValue`, covered by `canon_floatToValue` and the `Tail` shape;
-                     `parseLargeInt`, whose argument is ≥ 2^63/36 > 2^53).  A new raw site (e.g. a dropped
-                     canonicaliser in an operator) is not in the list and breaks this theorem.
+                     (constants whose value is non-integral / ±Inf / -0 / the canonical NaN / > 2^53; the tail of
+                     `floatToValue`, covered by `canon_floatToValue`; `parseLargeInt`, whose argument is ≥ 2^63).
   * `wrappers_ok`  : every result wrapper used by an arithmetic / bitwise / update operator is a canonical producer.
+  * `…_tie`        : return expressions / guards / trimming calls of the transcribed functions, as text.
+  * `whitespace_tie`: `parser.WhitespaceChars` is the table `StrNum.trimChars` (proved = WhiteSpace ∪ LineTerminator).
   * `maxInt_tie`   : the threshold the model uses is the one in vm.go.
-  * the shapes (`tail`, `core`) are consumed by the driver (`Driver.shapes`); both values are covered by theorems.
 -/
 import GojaModel.C05.Model
+import GojaModel.C05.StrNum
 import GojaModel.Generated.C05_NumSites
 import GojaModel.Generated.C05_Shapes
 
 namespace GojaModel.C05.Tie
 open GojaModel
+namespace G
+export GojaModel.Generated.C05_Shapes (facts whitespaceChars maxIntShift)
+end G
 
 def auditedSites : List (String × String × String) := [
   ("builtin_global.go", "parseLargeInt", "n"),
@@ -34,7 +39,6 @@ def auditedSites : List (String × String × String) := [
   ("value.go", "<package>", "math.Inf(-1)"),
   ("value.go", "<package>", "negativeZero"),
   ("value.go", "<package>", "2.2204460492503130808472633361816e-16"),
-  ("vm.go", "intToValue", "i"),
   ("vm.go", "floatToValue", "f")
 ]
 
@@ -50,6 +54,70 @@ theorem numSites_ok :
 theorem wrappers_ok :
     Generated.C05_NumSites.wrappers.all (fun p => p.2.all (fun w => canonicalProducers.contains w)) = true := by decide
 
-theorem maxInt_tie : (2 : Int) ^ Generated.C05_Shapes.maxIntShift = Num.maxInt := by decide
+theorem maxInt_tie : (2 : Int) ^ G.maxIntShift = Num.maxInt := by decide
+
+theorem whitespace_tie : G.whitespaceChars = StrNum.trimChars := by decide
+
+/-- vm.go canonicalisers: `intToValue` ends in `floatToValue(float64(i))` (287714a), `floatToInt`'s guard, `floatToValue`'s cases — what `Num.intToValue/floatToInt/floatToValue` transcribe -/
+theorem canonicalisers_tie :
+    G.facts.lookup "returns:intToValue" = some ["intCache[idx]", "valueInt(i)", "floatToValue(float64(i))"] ∧
+    G.facts.lookup "conds:intToValue" = some ["idx >= 0 && idx < 256", "i >= -maxInt && i <= maxInt"] ∧
+    G.facts.lookup "conds:floatToInt" = some ["(f != 0 || !math.Signbit(f)) && !math.IsInf(f, 0) && f == math.Trunc(f) && f >= -maxInt && f <= maxInt"] ∧
+    G.facts.lookup "returns:floatToValue" = some ["intToValue(i)", "_negativeZero", "_NaN", "_positiveInf", "_negativeInf", "valueFloat(f)"] := by decide
+
+/-- runtime.go / value.go conversions: every ToIntN goes through `float64ToInt64Mod` (c5b41a6); `floatToIntClip`, `toLength`, `toIndex` decisions -/
+theorem conversions_tie :
+    G.facts.lookup "returns:toInt8" = some ["int8(i)", "int8(float64ToInt64Mod(f))", "0"] ∧
+    G.facts.lookup "returns:toUint8" = some ["uint8(i)", "uint8(float64ToInt64Mod(f))", "0"] ∧
+    G.facts.lookup "returns:toInt16" = some ["int16(i)", "int16(float64ToInt64Mod(f))", "0"] ∧
+    G.facts.lookup "returns:toUint16" = some ["uint16(i)", "uint16(float64ToInt64Mod(f))", "0"] ∧
+    G.facts.lookup "returns:toInt32" = some ["int32(i)", "int32(float64ToInt64Mod(f))", "0"] ∧
+    G.facts.lookup "returns:toUint32" = some ["uint32(i)", "uint32(float64ToInt64Mod(f))", "0"] ∧
+    G.facts.lookup "conds:float64ToInt64Mod" = some ["f >= -two63 && f < two63", "f >= two63", "f < -two63"] ∧
+    G.facts.lookup "returns:float64ToInt64Mod" = some ["int64(f)", "int64(f)"] ∧
+    G.facts.lookup "conds:floatToIntClip" = some [] ∧
+    G.facts.lookup "returns:floatToIntClip" = some ["0", "math.MaxInt64", "math.MinInt64", "int64(n)"] ∧
+    G.facts.lookup "conds:toLength" = some ["v == nil", "i < 0", "i >= maxInt"] ∧
+    G.facts.lookup "returns:toLength" = some ["0", "0", "maxInt - 1", "i"] ∧
+    G.facts.lookup "conds:Runtime.toIndex" = some ["num >= 0 && num < maxInt", "bits.UintSize == 32 && num >= math.MaxInt32"] := by decide
+
+/-- vm.go `_mul`: the `_negativeZero` guard (bd78985) and the overflow test -/
+theorem mul_tie :
+    G.facts.lookup "conds:_mul.exec" = some ["left == 0 && right < 0 || left < 0 && right == 0", "left == 0 || right == 0 || res/left == right", "ok", "ok"] := by decide
+
+/-- string → number: every conversion trims with `parser.WhitespaceChars` (never `strings.TrimSpace`, e80e384), `radixPrefix`/`stringToInt` decisions (d6061d6, 7637e2e), `ToInteger` (c886782), UTF-16 strings delegate (6010fc8) -/
+theorem strnum_tie :
+    G.facts.lookup "conds:radixPrefix" = some ["len(ss) > 2 && ss[0] == '0'"] ∧
+    G.facts.lookup "returns:radixPrefix" = some ["16", "8", "2", "0"] ∧
+    G.facts.lookup "conds:stringToInt" = some ["ss == \"\"", "base != 0", "ss[2] == '+' || ss[2] == '-'", "err == nil && i == 0 && ss[0] == '-'"] ∧
+    G.facts.lookup "returns:stringToInt" = some ["0, nil", "0, strconv.ErrSyntax", "strconv.ParseInt(ss[2:], base, 64)", "0, strconv.ErrSyntax", "i, err"] ∧
+    G.facts.lookup "trims:trimWhitespace" = some ["strings.Trim(s, parser.WhitespaceChars)"] ∧
+    G.facts.lookup "trims:asciiString.ToNumber" = some ["trimWhitespace(string(s))"] ∧
+    G.facts.lookup "trims:asciiString.ToFloat" = some ["trimWhitespace(string(s))"] ∧
+    G.facts.lookup "trims:asciiString.ToInteger" = some ["trimWhitespace(string(s))"] ∧
+    G.facts.lookup "trims:asciiString.toTrimmedUTF8" = some ["trimWhitespace(string(s))"] ∧
+    G.facts.lookup "trims:unicodeString.toTrimmedUTF8" = some ["strings.Trim(s.String(), parser.WhitespaceChars)"] ∧
+    G.facts.lookup "trims:importedString.toTrimmedUTF8" = some ["strings.Trim(i.s, parser.WhitespaceChars)"] ∧
+    G.facts.lookup "returns:asciiString.ToInteger" = some ["0", "math.MaxInt64", "math.MinInt64", "floatToIntClip(f)", "0", "i"] ∧
+    G.facts.lookup "returns:unicodeString.ToNumber" = some ["asciiString(s.toTrimmedUTF8()).ToNumber()"] ∧
+    G.facts.lookup "returns:unicodeString.ToFloat" = some ["asciiString(s.toTrimmedUTF8()).ToFloat()"] ∧
+    G.facts.lookup "returns:unicodeString.ToInteger" = some ["asciiString(s.toTrimmedUTF8()).ToInteger()"] := by decide
+
+/-- value.go / map.go identity: what `Num.sameAs/hash/normKey/mapFinds` transcribe -/
+theorem identity_tie :
+    G.facts.lookup "conds:valueFloat.SameAs" = some ["math.IsNaN(this) && math.IsNaN(o1)", "ret && this == 0", "ret && this == 0"] ∧
+    G.facts.lookup "returns:valueInt.SameAs" = some ["i == other"] ∧
+    G.facts.lookup "conds:valueFloat.hash" = some ["f == _negativeZero"] ∧
+    G.facts.lookup "conds:orderedMap.lookup" = some ["key == _negativeZero"] := by decide
+
+/-- builtin_array.go `includes`: search value and BOTH element loops normalise -0 (dd517b9) -/
+theorem includes_tie :
+    G.facts.lookup "conds:Runtime.arrayproto_includes" = some ["length == 0", "n >= length", "n < 0", "searchElement == _negativeZero", "arr != nil && int64(len(arr.values)) == length", "val == _negativeZero", "searchElement.SameAs(val)", "val == _negativeZero", "searchElement.SameAs(val)"] := by decide
+
+/-- builtin_math.go `Math.sign` returns Numbers only (795f82e) -/
+theorem mathsign_tie :
+    G.facts.lookup "returns:Runtime.math_sign" = some ["floatToValue(num)", "intToValue(1)", "intToValue(-1)"] := by decide
+
+
 
 end GojaModel.C05.Tie
